@@ -26,14 +26,16 @@ META = {
                   "because the standard does not say: lb/extent of a type with an empty type map; bounds of a struct mixing members with and "
                   "without explicit bounds (sticky markers: MPI text vs MPICH practice; never generated). MPI_Type_get_true_extent is printed "
                   "but not judged (not in the statement). While the open findings are open, a type whose MPI extent is wrong is only moved "
-                  "with count <= 1 (no gather/scatter), and types built on an unsound component are not judged (counter masked_by_component).",
+                  "with count <= 1 (no gather/scatter), and types built on an unsound component are not judged (counter masked_by_component). "
+                  "The two ranks share one heap: a process death that follows wrong transfers of the same type (reported on their own) is "
+                  "counted, not reported; a death is reported when the type dies alone in a fresh process without a wrong transfer before. "
+                  "Root-cause keys are labels only: whether a transfer or a bound is wrong is always decided by the reference type map.",
     "rule": "case = one datatype node (constructor + arguments + old types) with its reference type map; non-trivial = a derived type "
             "with >= 2 segments or a non-trivial extent whose tests ran; distinct by constructor arguments",
-    "ready": False,
+    "ready": True,
 }
 PATHS = ["sendrecv-self", "send-recv", "typed-to-bytes", "bytes-to-typed", "pack", "unpack", "bcast", "gather", "isend-irecv", "scatter"]
 CODES = {1: "wrong-or-missing", 2: "outside-modified", 3: "mpi-error", 4: "wrong-count"}
-COUNTS = [0, 1, 2, 3, 5]
 
 # Root causes of the open findings (known_findings.d/C30.json). A failure gets one of these keys only when the failing type has the
 # feature that triggers the defect (predicates below, derived from the defect, decided on the *reference* description of the type).
